@@ -20,6 +20,9 @@ import ast
 from ..model import walk_no_nested
 
 OWNED, BORROWED = "owned", "borrowed"
+# an item looked up in a container by key / name (h5 group[name], dict[key]): not an array view of the
+# container; what it is cannot be told from the syntax, so writes through it are not judged
+ELEMENT = "element"
 
 # result aliases (may share memory with) the first argument / the receiver
 ALIAS_CALLS = {
@@ -64,7 +67,14 @@ class Ownership:
         if isinstance(e, ast.Attribute):
             return BORROWED
         if isinstance(e, ast.Subscript):
-            return self.status(e.value)
+            base = self.status(e.value)
+            if base == OWNED:
+                return OWNED
+            idx = e.slice
+            parts = idx.elts if isinstance(idx, ast.Tuple) else [idx]
+            if any(isinstance(p_, ast.Slice) or (isinstance(p_, ast.Constant) and p_.value is Ellipsis) for p_ in parts):
+                return base  # basic slicing: a view of the base
+            return ELEMENT if base == BORROWED else base
         if isinstance(e, ast.Starred):
             return self.status(e.value)
         if isinstance(e, ast.IfExp):
@@ -141,7 +151,7 @@ class Ownership:
         out = {}
         for k in keys:
             vals = [e.get(k) for e in envs]
-            out[k] = OWNED if all(v == OWNED for v in vals) else BORROWED
+            out[k] = OWNED if all(v == OWNED for v in vals) else (BORROWED if BORROWED in vals or None in vals else ELEMENT)
         # a name unbound on one path keeps the status of the paths that bind it only if all agree
         for k in keys:
             vals = [e[k] for e in envs if k in e]
